@@ -57,9 +57,6 @@ Section Differ.
       end
     end.
 
-  Definition cur_kv (c : cursor) : option kv :=
-    match cur_item c with Some (k, EV v) => Some (k, v) | _ => None end.
-
   (* td.from.Valid() && td.from.compare(td.fromStop) < 0 *)
   Definition in_bounds (c stop : cursor) : bool := cur_valid c && (cur_compare c stop <? 0)%Z.
 
